@@ -9,6 +9,7 @@ From Verif Require Import c05.Proofs_LimiterMon c05.Proofs_WorkerMon c05.Proofs_
 From Verif Require Import c05.ModelSync c05.SpecSync c05.Proofs_Sync c05.SpecDialPeer.
 From Verif Require Import c05.ModelComposite c05.SpecComposite c05.Proofs_Composite c05.Proofs_Composite2 c05.Proofs_Composite3.
 From Verif Require Import c05.Proofs_Composite4 c05.Proofs_Composite5 c05.Proofs_Composite6 c05.Proofs_CompositeMon.
+From Verif Require Import c05.ModelAddrs c05.Proofs_Addrs.
 From Verif Require Import c05.Proofs_CompositeHI c05.Proofs_CompositeMon5 c05.Proofs_CompositeQ c05.Proofs_CompositeMon6 c05.Proofs_CompositeMon8.
 Import ListNotations.
 Local Open Scope Z_scope.
@@ -328,6 +329,25 @@ Theorem c05_composite_monitor_accepts : forall fdl ppl fds xs, 1 <= fdl -> 1 <= 
 Proof. exact monitor_d_accepts_b. Qed.
 Print Assumptions c05_composite_monitor_accepts.
 
+(* ---- addrsForDial ---------------------------------------------------------------------
+   "each address of the peer is handed to a transport at most once" starts with the list handed
+   to the worker: whatever the peerstore holds (literal addresses, the same address with a
+   trailing /p2p/<peer>, DNS and dnsaddr names) and whatever the names resolve to, the list
+   computed by resolve, strip /p2p, de-duplicate, filter names every address once (addresses
+   compared after the /p2p component is stripped), names only addresses some entry resolves to,
+   and names every such address the filters keep.  The filters are an arbitrary predicate of the
+   de-duplicated list.  (Judged on the implementation by clause 10 of the DialPeer case monitor:
+   the ranking recorded for every request is repetition-free.) *)
+Theorem c05_addrs_for_dial_no_duplicates : forall keep es, NoDup (addrs_for_dial keep es).
+Proof. exact addrs_for_dial_nodup_l. Qed.
+Print Assumptions c05_addrs_for_dial_no_duplicates.
+
+Theorem c05_addrs_for_dial_sound_complete : forall keep es a,
+  (In a (addrs_for_dial keep es) -> exists e b, In e es /\ In (a, b) e) /\
+  (forall e b, In e es -> In (a, b) e -> keep (nodupz (strip_p2p (resolve_all es))) a = true -> In a (addrs_for_dial keep es)).
+Proof. intros. split; [apply addrs_for_dial_sound_l | intros; eapply addrs_for_dial_complete_l; eauto]. Qed.
+Print Assumptions c05_addrs_for_dial_sound_complete.
+
 (* ---- non-vacuity ----------------------------------------------------------------- *)
 (* the history of the repaired defect reaches a state with a queued live job and
    the FD cap exactly saturated *)
@@ -432,3 +452,15 @@ Example composite_headline_nonvacuous :
      ([], [], [], 1, 1); ([(1, 0)], [], [2], 0, 0); ([], [], [], 0, 0)] /\
   monitor_d 1 1 (mkDmon [] [] [] false false) 0 tr = [].
 Proof. vm_compute. repeat split. Qed.
+
+(* the order matters: de-duplicating before the /p2p component is stripped leaves the address of
+   a dnsaddr record (X/p2p/<peer>) next to the cached X - the worker would be handed X twice *)
+Example addrs_for_dial_wrong_order_duplicates :
+  addrs_for_dial_wrong (fun _ _ => true) [[(1, true)]; [(1, false)]] = [1; 1] /\
+  addrs_for_dial (fun _ _ => true) [[(1, true)]; [(1, false)]] = [1].
+Proof. vm_compute. split; reflexivity. Qed.
+
+(* the DialPeer case monitor rejects a request whose recorded ranking names an address twice *)
+Example dialpeer_monitor_rejects_duplicate_ranking :
+  monitor_d_case [1; 1; 0;  1; 1; 0; 0; 1; 2; 7; 250000000; 7; 250000000;  0; 2; 7; 7; 0; 0; 2; 0; 1; 1; 0; 1] = [ERR_PROPERTY; 0; 10].
+Proof. vm_compute. reflexivity. Qed.
